@@ -24,7 +24,7 @@ impl Ord for Ep { fn cmp(&self, o: &Self) -> std::cmp::Ordering { self.id.cmp(&o
 #[derive(Clone, Debug, Default)]
 pub struct Reply { pub code: u64, pub opts: Vec<(u16, Vec<Vec<u8>>)>, pub body: Vec<u8> }
 #[derive(Clone, Debug)]
-pub enum Step { Ex(u64, PktDesc, u64, Reply), Sleep }
+pub enum Step { Ex(u64, PktDesc, u64, Reply), Sleep, Nap }
 
 pub fn write_case(m: u64, mode: u64, steps: &[Step]) -> Vec<u64> {
     let mut v = vec![m, mode, steps.len() as u64];
@@ -32,6 +32,7 @@ pub fn write_case(m: u64, mode: u64, steps: &[Step]) -> Vec<u64> {
     for s in steps {
         match s {
             Step::Sleep => v.push(1),
+            Step::Nap => v.push(3),
             Step::Ex(tid, p, src, rp) => {
                 if let Some(q) = prev { if q.code == rp.code && q.opts == rp.opts && q.body == rp.body {
                     v.push(2); v.push(*tid); p.write(&mut v); v.push(*src); continue;
@@ -57,6 +58,7 @@ fn rd_steps(c: &mut Cur) -> Vec<(u64, Option<(Packet, u64, Reply)>)> {
     (0..n).map(|_| match c.n() {
         0 => { let tid = c.n(); let p = rd_packet(c); let src = c.n(); prev = rd_reply(c); (tid, Some((p, src, prev.clone()))) }
         2 => { let tid = c.n(); let p = rd_packet(c); let src = c.n(); (tid, Some((p, src, prev.clone()))) }
+        3 => (1, None),
         _ => (0, None) }).collect()
 }
 
@@ -117,18 +119,23 @@ impl Server {
 }
 
 fn run_steps(m: u64, mode: u64, steps: &[(u64, Option<(Packet, u64, Reply)>)], only: Option<u64>) -> Vec<u64> {
-    let ttl = if mode == 0 { Duration::from_secs(3600) } else { Duration::from_millis(40) };
+    // mode 0: one hour; mode 1: 40 ms with 200 ms sleeps; mode 2: 300 ms with 100 ms naps (only the last exchange is observed)
+    let ttl = match mode { 0 => Duration::from_secs(3600), 1 => Duration::from_millis(40), _ => Duration::from_millis(300) };
+    let last_ex = steps.iter().rposition(|(_, s)| s.is_some());
     let mut srv = Server::new(m, ttl);
     let mut out = Vec::new();
     let mut after_sleep = false;
-    for (tid, s) in steps {
+    for (idx, (tid, s)) in steps.iter().enumerate() {
         match s {
-            None => { if only.is_none() { std::thread::sleep(Duration::from_millis(200)); after_sleep = true; } }
+            None => { if only.is_none() { if *tid == 1 { std::thread::sleep(Duration::from_millis(100)); } else { std::thread::sleep(Duration::from_millis(200)); after_sleep = true; } } }
             Some((p, src, rp)) => {
                 if let Some(t) = only { if *tid != t { continue; } }
                 let r = catch_unwind(AssertUnwindSafe(|| srv.exchange(p, *src, rp)));
                 match r {
-                    Ok((o, _)) => { if mode == 0 || after_sleep { out.push(o.len() as u64); out.extend(o); } }
+                    Ok((mut o, _)) => {
+                        if mode == 2 { if Some(idx) == last_ex { if let Some(x) = o.last_mut() { *x = 0; } out.push(o.len() as u64); out.extend(o); } }
+                        else if mode == 0 || after_sleep { out.push(o.len() as u64); out.extend(o); }
+                    }
                     Err(_) => { out.push(2); out.push(9); out.push(0); return out; }
                 }
                 after_sleep = false;
@@ -218,7 +225,21 @@ fn upload_steps(tid: u64, base: &ReqSpec, src: u64, body: &[u8], szx: u8, dups: 
 }
 
 fn rand_reply_opts(r: &mut Rng) -> Vec<(u16, Vec<Vec<u8>>)> {
-    match r.below(4) { 0 => vec![], 1 => vec![(12, vec![vec![40]])], 2 => vec![(4, vec![r.bytes(4)]), (14, vec![vec![60]])], _ => vec![(12, vec![vec![50]]), (8, vec![b"loc".to_vec(), b"x".to_vec()])] }
+    match r.below(7) {
+        0 => vec![], 1 => vec![(12, vec![vec![40]])], 2 => vec![(4, vec![r.bytes(4)]), (14, vec![vec![60]])],
+        3 => vec![(12, vec![vec![50]]), (8, vec![b"loc".to_vec(), b"x".to_vec()])],
+        // repeatable options with byte-identical values, an empty value, numbers on both sides of Block2
+        4 => vec![(8, vec![b"store".to_vec(), b"store".to_vec(), b"7".to_vec()]), (20, vec![b"a=1".to_vec(), b"a=1".to_vec()])],
+        5 => vec![(65000, vec![vec![1], vec![2], vec![1]]), (2049, vec![vec![], vec![]])],
+        _ => vec![(4, vec![vec![9], vec![9]]), (28, vec![vec![1, 0]]), (300, vec![vec![7; 14], vec![7; 14]])],
+    }
+}
+
+/// non-payload size of a reply carrying these options and a token of `tkl` bytes, plus the 28 bytes the
+/// properties' budget domain asks for (a 16-byte block and the 12-byte block-option allowance)
+fn min_budget(opts: &[(u16, Vec<Vec<u8>>)], tkl: usize) -> u64 {
+    let d = PktDesc { vtt: 0x60 | tkl as u8, class: 0x45, mid: 0, token: vec![0; tkl], entries: opts.to_vec(), payload: vec![] };
+    packet_of(&d).to_bytes_unlimited().map(|b| b.len() as u64).unwrap_or(200) + 28
 }
 
 // ------------------------------------------------------------------ suite 80
@@ -226,6 +247,7 @@ pub fn gen80(tier: &str, r: &mut Rng, emit: &mut dyn FnMut(Vec<u64>)) {
     let thorough = tier == "thorough";
     let mut one = |r: &mut Rng, blen: usize, m: u64, pref: Option<u8>, reduce: Option<(u64, u8)>, tkl: usize, emit: &mut dyn FnMut(Vec<u64>)| {
         let rp = Reply { code: 0x45, opts: rand_reply_opts(r), body: r.bytes(blen) };
+        let m = m.max(min_budget(&rp.opts, tkl));
         let mut first = ReqSpec::get(&["res", "b"]);
         first.token = r.bytes(tkl); first.mid = r.next() as u16;
         first.b2 = pref.map(|s| bv(0, false, s));
@@ -245,10 +267,12 @@ pub fn gen80(tier: &str, r: &mut Rng, emit: &mut dyn FnMut(Vec<u64>)) {
     // nothing of the first may leak into the second
     for _ in 0..(if thorough { 3000 } else { 200 }) {
         let m = r.pick(&[76u64, 140, 300, 1152]);
+        let (o1, o2) = (rand_reply_opts(r), rand_reply_opts(r));
+        let m = m.max(min_budget(&o1, 8)).max(min_budget(&o2, 8));
         let mut steps = Vec::new();
         for t in 1..=2u64 {
             let blen = r.pick(&[0usize, 10, 33, 64, 65, 200, 700]);
-            let rp = Reply { code: 0x45, opts: rand_reply_opts(r), body: r.bytes(blen) };
+            let rp = Reply { code: 0x45, opts: if t == 1 { o1.clone() } else { o2.clone() }, body: r.bytes(blen) };
             let mut first = ReqSpec::get(&["res", "b"]);
             first.token = r.bytes_below(9); first.mid = (1000 * t) as u16;
             first.b2 = if r.chance(1, 2) { None } else { Some(bv(0, false, r.below(7) as u8)) };
@@ -342,6 +366,23 @@ pub fn gen100(tier: &str, r: &mut Rng, emit: &mut dyn FnMut(Vec<u64>)) {
             let n = steps.len().min(4);
             emit(write_case(m, 0, &steps[..n]));
         }
+    }
+    // a request that ends an upload AND names a Block2 size for the (large) reply: the reply's block must not exceed it
+    for _ in 0..(if thorough { 6_000 } else { 400 }) {
+        let mut base = ReqSpec::get(&["u"]);
+        base.code = r.pick(&[2u64, 3, 5]);
+        base.token = r.bytes_below(9);
+        let overhead = packet_of(&base.desc()).to_bytes_unlimited().unwrap().len() as u64;
+        let m = (overhead + 40 + r.below(1280 - overhead - 40 + 1)).min(1280);
+        let szx1 = r.below(3) as u8;
+        let nblocks = 1 + r.below(3) as usize;
+        let blen = (16usize << szx1) * (nblocks - 1) + 1 + r.below(16 << szx1) as usize;
+        let body = r.bytes(blen);
+        let rp = Reply { code: 0x44, opts: rand_reply_opts(r), body: r.bytes_pick(&[100usize, 600, 1300, 3000]) };
+        let mut steps = upload_steps(1, &base, 7, &body, szx1, &|_| 1, None, &rp);
+        let hint = r.below(7) as u8;
+        if let Some(Step::Ex(_, d, _, _)) = steps.last_mut() { d.entries.push((23, vec![bv(0, false, hint)])); d.entries.sort_by_key(|e| e.0); }
+        emit(write_case(m, 0, &steps));
     }
 }
 
@@ -481,7 +522,7 @@ pub fn gen200(tier: &str, r: &mut Rng, emit: &mut dyn FnMut(Vec<u64>)) {
         emit(write_case(1152, 0, &steps));
     } }
     // expiry: short duration, idle for several times the duration, then the follow-up; 1..50 abandoned transfers
-    for &abandoned in (if thorough { &[1u64, 2, 5, 20, 50][..] } else { &[1u64, 12][..] }) { for kind in 0..3 {
+    for &abandoned in (if thorough { &[1u64, 2, 5, 20, 50][..] } else { &[1u64, 12][..] }) { for kind in 0..6 {
         let mut steps = Vec::new();
         let mut q = ReqSpec::get(&["gone"]);
         let rp = Reply { code: 0x45, opts: vec![], body: r.bytes(100) };
@@ -491,13 +532,43 @@ pub fn gen200(tier: &str, r: &mut Rng, emit: &mut dyn FnMut(Vec<u64>)) {
             q.b2 = Some(bv(0, false, 0)); steps.push(Step::Ex(1, q.desc(), 7, rp.clone()));
             steps.push(Step::Sleep);
             let mut f = q.clone(); f.b2 = Some(bv(1, false, 0)); f.mid = 9; steps.push(Step::Ex(1, f.desc(), 7, Reply { code: 0x45, opts: vec![], body: r.bytes(10) }));
-        } else {
+        } else if kind < 3 {
             q.code = 3; let body = r.bytes(16 * 2 + 7);
             let up = upload_steps(1, &q, 7, &body, 0, &|_| 1, None, &Reply { code: 0x44, ..Default::default() });
             steps.extend(up[..2].iter().cloned());
             steps.push(Step::Sleep);
             steps.push(if kind == 1 { up[2].clone() } else { up[1].clone() });
+        } else {
+            // only ordinary traffic after the idle period: a plain request on a new key, small reply
+            q.b2 = Some(bv(0, false, 0)); steps.push(Step::Ex(1, q.desc(), 7, rp.clone()));
+            steps.push(Step::Sleep);
+            let mut f = ReqSpec::get(&["plain"]); f.mid = 9; if kind == 4 { f.code = 2; f.payload = r.bytes(5); }
+            steps.push(Step::Ex(2, f.desc(), if kind == 5 { 7 } else { 8 }, Reply { code: 0x45, opts: vec![], body: r.bytes(10) }));
         }
         emit(write_case(1152, 1, &steps));
     } }
+    // expiry is per key: a transfer left idle for longer than the expiry duration expires although OTHER keys keep
+    // using the handler at intervals shorter than the duration (expiry 300 ms, four naps of 100 ms)
+    for kind in 0..(if thorough { 6 } else { 3 }) {
+        let mut steps = Vec::new();
+        let mut q = ReqSpec::get(&["idle"]);
+        let busy = |i: u64, blk: u64| -> Step {
+            if kind % 3 == 2 { other(i) } else {
+                let mut a = ReqSpec::get(&["busy"]); a.code = 3; a.b1 = Some(bv(blk, true, 0)); a.payload = vec![i as u8; 16]; a.mid = (100 + i) as u16;
+                Step::Ex(60 + (i % 2), a.desc(), 300 + (i % 2), Reply::default()) } };
+        if kind % 3 != 1 {
+            let rp = Reply { code: 0x45, opts: vec![], body: r.bytes(100) };
+            q.b2 = Some(bv(0, false, 0)); steps.push(Step::Ex(1, q.desc(), 7, rp));
+            for i in 0..4u64 { steps.push(Step::Nap); steps.push(busy(i, i / 2)); }
+            let mut f = q.clone(); f.b2 = Some(bv(1, false, 0)); f.mid = 9;
+            steps.push(Step::Ex(1, f.desc(), 7, Reply { code: 0x45, opts: vec![], body: r.bytes(40) }));
+        } else {
+            q.code = 3; let body = r.bytes(16 * 2 + 7);
+            let up = upload_steps(1, &q, 7, &body, 0, &|_| 1, None, &Reply { code: 0x44, ..Default::default() });
+            steps.extend(up[..2].iter().cloned());
+            for i in 0..4u64 { steps.push(Step::Nap); steps.push(busy(i, i / 2)); }
+            steps.push(up[2].clone());
+        }
+        emit(write_case(1152, 2, &steps));
+    }
 }
